@@ -172,12 +172,30 @@ Qed.
 Lemma find_upd_some ch us u : find_upd ch us = Some u -> In u us /\ u_chain u = ch.
 Proof. unfold find_upd. intros H. apply find_some in H as [H E]. apply N.eqb_eq in E. auto. Qed.
 
+Lemma bytes_eqb_eq (l m : list (N * N)) : list_eqb (pair_eqb N.eqb N.eqb) l m = true -> l = m.
+Proof.
+  revert m. induction l as [|[i x] l IH]; intros [|[j y] m] H; cbn [list_eqb] in H; try discriminate; [reflexivity|].
+  apply andb_true_iff in H as [H1 H2]. unfold pair_eqb in H1. cbn [fst snd] in H1.
+  apply andb_true_iff in H1 as [Hi Hx]. apply N.eqb_eq in Hi, Hx. subst. f_equal. now apply IH.
+Qed.
+Lemma addr_eqb_eq (a b : addr) : addr_eqb a b = true -> a = b.
+Proof.
+  destruct a as [l v], b as [l' v']. unfold addr_eqb. cbn [fst snd]. intros H.
+  apply andb_true_iff in H as [H1 H2]. apply N.eqb_eq in H1. apply bytes_eqb_eq in H2. now subst.
+Qed.
+
+(* the length of what an observation must carry: min(requested length, 20) *)
+Lemma exp_onramp_len q : fst (exp_onramp q) = N.min (fst (lr_onramp q)) 20.
+Proof.
+  unfold exp_onramp, keep_right. destruct (N.leb_spec (fst (lr_onramp q)) 20); cbn [fst]; lia.
+Qed.
+
 Lemma validate_lus_sound n us lus : forall seen votes,
   validate_lus fixed n us seen lus = Ok votes ->
   NoDup (map fst votes) /\ (forall ch, In ch (map fst votes) -> ~ In ch seen) /\
   forall ch rv, In (ch, rv) votes ->
     exists lu u, In lu lus /\ find_upd ch us = Some u /\ memN n (u_nodes u) = true /\
-      lu_src lu = Some (ch, lr_onramp (u_req u)) /\
+      lu_src lu = Some (ch, exp_onramp (u_req u)) /\
       lu_itv lu = Some (lr_min (u_req u), lr_max (u_req u)) /\ lu_root lu = rv /\ rv <> RNil.
 Proof.
   induction lus as [|lu rest IH]; intros seen votes H; cbn [validate_lus] in H.
@@ -190,7 +208,8 @@ Proof.
     destruct (memN n (u_nodes u)) eqn:Eobs; cbn [negb] in H; [|discriminate].
     destruct (N.eqb_spec (lr_min (u_req u)) mn) as [Emn|]; cbn [negb] in H; [|discriminate].
     destruct (N.eqb_spec (lr_max (u_req u)) mx) as [Emx|]; cbn [negb] in H; [|discriminate].
-    destruct (N.eqb_spec (lr_onramp (u_req u)) onr) as [Eon|]; cbn [negb] in H; [|discriminate].
+    destruct (addr_eqb (exp_onramp (u_req u)) onr) eqn:Eon; cbn [negb] in H; [|discriminate].
+    apply addr_eqb_eq in Eon.
     assert (Hrest : lu_root lu <> RNil /\
                     rbind (validate_lus fixed n us (ch :: seen) rest) (fun l => Ok ((ch, lu_root lu) :: l)) = Ok votes).
     { destruct (lu_root lu); [discriminate| | |]; (split; [discriminate|exact H]). }
@@ -203,6 +222,21 @@ Proof.
     + intros c rv [E|Hin].
       * inversion E; subst. exists lu, u. subst. cbn. repeat split; auto.
       * destruct (Hall c rv Hin) as (lu' & u' & Hl & R). exists lu', u'. cbn. split; [auto|exact R].
+Qed.
+
+(* every vote that validation lets through comes from a lane update whose source is EXACTLY the requested lane: the
+   requested selector, and an on-ramp address byte-equal to the last 20 bytes of the requested address (all of it if it
+   has at most 20) — in particular of exactly that length: no shorter tail, no longer string with the same tail *)
+Lemma lane_source_exact n us lus seen votes :
+  validate_lus fixed n us seen lus = Ok votes ->
+  forall ch rv, In (ch, rv) votes ->
+  exists lu u, In lu lus /\ find_upd ch us = Some u /\
+    lu_src lu = Some (ch, keep_right 20 (lr_onramp (u_req u))) /\
+    forall o, lu_src lu = Some (ch, o) -> fst o = N.min (fst (lr_onramp (u_req u))) 20.
+Proof.
+  intros H ch rv Hin. destruct (validate_lus_sound _ _ _ _ _ H) as (_ & _ & A).
+  destruct (A ch rv Hin) as (lu & u & Hl & Hu & _ & Hs & _). exists lu, u. repeat split; auto.
+  intros o Ho. rewrite Hs in Ho. inversion Ho. apply exp_onramp_len.
 Qed.
 
 Lemma validate_lus_no_panic n us lus : forall seen,
@@ -624,7 +658,7 @@ Section ObsThreshold.
       In (Resp n (BMsg id (PObs so))) evs /\ so_obs so = Some ob /\
       find_home cfg n = Some hn /\ edv (hn_key hn) ob (so_sig so) = true /\
       ob_dest ob = Some (c_dest_sel cfg, c_dest_off cfg) /\ ob_digest ob = c_digest cfg /\
-      In lu (ob_lus ob) /\ lu_src lu = Some (lr_chain q, lr_onramp q) /\
+      In lu (ob_lus ob) /\ lu_src lu = Some (lr_chain q, exp_onramp q) /\
       lu_itv lu = Some (lr_min q, lr_max q) /\ lu_root lu = R32 r.
 
   (* F+1 distinct such nodes *)
@@ -1134,6 +1168,10 @@ Section Main.
 End Main.
 
 (* ---------- concrete runs: the hypotheses of the theorems are satisfiable; the code before the repair fails ---------- *)
+(* a 32-byte abi-encoded on-ramp address (0xAB .. 0x23) and its last 20 bytes *)
+Definition w_onr32 : addr := (32, [(0, 35); (19, 17); (31, 171)])%N.
+Definition w_onr20 : addr := (20, [(0, 35); (19, 17)])%N.
+
 Module Witness.
   Definition edv (key : N) (_ : observation) (sg : N) : bool := N.eqb sg key.
   Definition vrs (addr : N) (sg : N) (_ : report) : bool := N.eqb (sg / 100) addr.
@@ -1141,12 +1179,12 @@ Module Witness.
   (* three nodes observing lane 5, F_home = 1; the same three are signers, F_remote = 1 *)
   Definition cfg : config :=
     mkConfig [mkHomeNode 1 [5] 21; mkHomeNode 2 [5] 22; mkHomeNode 3 [5] 23]%N [(5%N, 1%Z)]
-             1 7 true 3 [mkLaneReq 5 35 10 20]%N
+             1 7 true 3 [mkLaneReq 5 w_onr32 10 20]%N
              [mkSigner 1 11; mkSigner 2 12; mkSigner 3 13]%N 1%Z false false.
   Definition sc : sched := mkSched [] [] [] [] [] [] (fun k => N.of_nat (S k)) (fun _ => false).
 
   Definition obs_of (key : N) (r : root) : payload :=
-    PObs (mkSO (Some (mkObs (Some (1, 7)) 3 [mkLU (Some (5, 35)) (Some (10, 20)) (R32 r)]))%N key).
+    PObs (mkSO (Some (mkObs (Some (1, 7)) 3 [mkLU (Some (5, w_onr20)) (Some (10, 20)) (R32 r)]))%N key).
   Definition sig_of (g : N) : payload := PSig (Some (mkEcdsa true g)).
 
   (* an honest run: nodes 1 and 2 are asked and answer; signers 1 and 2 are asked and sign *)
@@ -1157,8 +1195,23 @@ Module Witness.
   Example good_run_succeeds :
     NoDup (map sg_node (c_signers cfg)) /\
     exists log, run edv vrs fixed cfg sc good_run
-                = GFinal (Success [1101; 1201]%N [(mkLaneReq 5 35 10 20, 105)]%N) log.
+                = GFinal (Success [1101; 1201]%N [(mkLaneReq 5 w_onr32 10 20, 105)]%N) log.
   Proof. split; [repeat constructor; cbn; intuition discriminate|eexists; vm_compute; reflexivity]. Qed.
+
+  (* the requested address is the 32-byte form, an observation must carry exactly its last 20 bytes: the honest lane
+     update is let through; a proper tail (1 byte, 19 bytes), the empty address, a prefix, the 32-byte form itself and
+     the 21-byte tail are all rejected *)
+  Definition lu_with (o : addr) : lane_update := mkLU (Some (5%N, o)) (Some (10, 20)%N) (R32 105%N).
+  Definition us1 : list upd := [mkUpd (mkLaneReq 5 w_onr32 10 20) [1; 2; 3] 1]%N.
+  Example onramp_rule_examples :
+    keep_right 20 w_onr32 = w_onr20 /\
+    validate_lus fixed 1%N us1 [] [lu_with w_onr20] = Ok [(5%N, R32 105%N)] /\
+    forall o, In o [(1, [(0, 35)]); (19, [(0, 35)]); (0, []); (19, [(18, 17)]); w_onr32; (21, [(0, 35); (19, 17)])]%N ->
+      validate_lus fixed 1%N us1 [] [lu_with o] = Err.
+  Proof.
+    split; [vm_compute; reflexivity|]. split; [vm_compute; reflexivity|].
+    intros o H. cbn [In] in H. repeat (destruct H as [<-|H]; [vm_compute; reflexivity|]). destruct H.
+  Qed.
 
   Example good_run_phaseA :
     exists us s acc, run edv vrs fixed cfg sc [Resp 1 (BMsg 1 (obs_of 21 105))]%N = GA us s /\
@@ -1190,9 +1243,9 @@ Module Witness.
   Definition so_nil_src : payload :=
     PObs (mkSO (Some (mkObs (Some (1, 7)) 3 [mkLU None (Some (10, 20)) (R32 105)]))%N 21%N).
   Definition so_nil_itv : payload :=
-    PObs (mkSO (Some (mkObs (Some (1, 7)) 3 [mkLU (Some (5, 35)) None (R32 105)]))%N 21%N).
+    PObs (mkSO (Some (mkObs (Some (1, 7)) 3 [mkLU (Some (5, w_onr20)) None (R32 105)]))%N 21%N).
   Definition so_short_root : payload :=
-    PObs (mkSO (Some (mkObs (Some (1, 7)) 3 [mkLU (Some (5, 35)) (Some (10, 20)) RShort]))%N 21%N).
+    PObs (mkSO (Some (mkObs (Some (1, 7)) 3 [mkLU (Some (5, w_onr20)) (Some (10, 20)) RShort]))%N 21%N).
   Definition crash_runs : list (list event) :=
     [[Resp 1 (BMsg 1 so_nil_obs)]; [Resp 1 (BMsg 1 so_nil_dest)]; [Resp 1 (BMsg 1 so_nil_src)];
      [Resp 1 (BMsg 1 so_nil_itv)]; [Resp 1 (BMsg 1 so_short_root)]]%N.
@@ -2304,7 +2357,7 @@ End LiveFull.
 (* ---------- the hypotheses of the liveness theorem are satisfiable (and the theorem then gives a success) ---------- *)
 Module LiveWitness.
   Import Witness.
-  Definition us : list upd := [mkUpd (mkLaneReq 5 35 10 20) [1; 2; 3] 1]%N.
+  Definition us : list upd := [mkUpd (mkLaneReq 5 w_onr32 10 20) [1; 2; 3] 1]%N.
   Definition hon (n : node) : bool := N.eqb n 1 || N.eqb n 2.     (* node 3 is not honest *)
   Definition rho (_ : chain) : root := 105%N.
   Definition q (_ : upd) : list node := [1; 2]%N.
